@@ -1,12 +1,4 @@
 // ================= U22 prelude: TRUSTED stand-ins =================
-/// TRUSTED: std slice::partition_point
-pub assume_specification<T, P: FnMut(&T) -> bool>[ <[T]>::partition_point ](v: &[T], pred: P) -> (r: usize)
-    requires forall|x: &T| pred.requires((x,)),
-    ensures r <= v@.len(),
-        forall|k: int| #![trigger v@[k]] 0 <= k <= v@.len()
-            && (forall|i: int, b: bool| 0 <= i < k && #[trigger] pred.ensures((&v@[i],), b) ==> b)
-            && (forall|i: int, b: bool| k <= i < v@.len() && #[trigger] pred.ensures((&v@[i],), b) ==> !b)
-            ==> r == k;
 #[derive(PartialEq, Eq, Structural, Clone, Copy)] pub enum TxKind { Create, Call(Address) }
 pub struct TxEnv { pub caller: Address, pub value: U256, pub kind: TxKind }
 #[derive(Clone, Copy)] pub struct JournalCheckpoint { pub log_i: usize, pub journal_i: usize }
